@@ -228,19 +228,30 @@ func (n *Namespace) add(c *serverConn, auth json.RawMessage) (*serverSocket, err
 }
 
 func (n *Namespace) doConnect(socket *serverSocket) error {
+	c := socket.conn
+	c.admitMu.Lock()
+	if c.closed {
+		c.admitMu.Unlock()
+		// The connection was closed in the meantime (while the middlewares were running).
+		// Nobody would ever close this socket.
+		socket.leaveAll()
+		return fmt.Errorf("sio: connection is closed")
+	}
+
 	n.sockets.set(socket)
 
 	// The connection must know the socket before the CONNECT packet is sent.
 	// Otherwise, a packet sent by the client right after it receives the
 	// CONNECT packet is treated as an invalid state and the connection is closed.
-	socket.conn.sockets.set(socket)
-	socket.conn.nsps.set(n)
+	c.sockets.set(socket)
+	c.nsps.set(n)
 
 	// It is paramount that the internal `onconnect` logic
 	// fires before user-set events to prevent state order
 	// violations (such as a disconnection before the connection
 	// logic is complete)
 	socket.onConnect()
+	c.admitMu.Unlock()
 
 	go func() {
 		n.server.anyConnectionHandlers.forEach(func(handler *ServerAnyConnectionFunc) { (*handler)(n.name, socket) }, false)
